@@ -62,6 +62,17 @@ def make_replay(pid, f, unit_result):
     return path, found is not None
 
 
+def make_bounded_replay(pid, f):
+    os.makedirs(os.path.join(ROOT, "replays"), exist_ok=True)
+    h = hashlib.sha256(f["id"].encode()).hexdigest()[:10]
+    path = os.path.join(ROOT, "replays", "%s-%s.json" % (pid, h))
+    doc = dict(property=pid, obligation=f["id"], kind="bounded-standin", function=f.get("fn"),
+               verus_message=f["message"], verus_diagnostic=f["rendered"], failing_input=f["found"],
+               note="bounded stand-in: the unit could not be processed by Verus on this tree; the input below was found by the twin's small-universe enumeration against the real code")
+    json.dump(doc, open(path, "w"), indent=1)
+    return path
+
+
 def run_replay(pid, path):
     doc = json.load(open(path))
     print("replay of %s: obligation %s" % (doc["property"], doc["obligation"]))
